@@ -98,6 +98,7 @@ func main() {
 		Error:    func(error) {},
 	}
 	pkg, _ = conf.Check("modbus", fset, files, info)
+	initErrCodes()
 
 	// which functions
 	type want struct {
@@ -169,6 +170,7 @@ func main() {
 	}
 
 	// translate
+	computeFresh(decls)
 	tr := map[string]*fnOut{}
 	globalsUsed := map[string]bool{}
 	for _, q := range order {
@@ -202,6 +204,12 @@ func main() {
 		fmt.Fprintf(&b, "Definition src_global_%s : list N := [\n  %s].\n\n", g, wrapList(v, 8))
 		gdefs = append(gdefs, fmt.Sprintf("(%s, vbytes src_global_%s)", coqStr(g), g))
 	}
+	fmt.Fprintf(&b, "(* error values: 0 = nil, 1 = an error that is none of the package's Error constants,\n   then the Error constants in order of declaration *)\n")
+	var ec []string
+	for i, n := range errNames {
+		ec = append(ec, fmt.Sprintf("(%s, %d)", coqStr(n), i+2))
+	}
+	fmt.Fprintf(&b, "Definition src_error_codes : list (string * N) := [\n  %s].\n\n", wrapList(ec, 3))
 	for _, q := range sorted {
 		f := tr[q]
 		fmt.Fprintf(&b, "(* %s\n   %s *)\n", q, f.comment)
@@ -256,9 +264,27 @@ func qualName(fd *ast.FuncDecl) string {
 	return fd.Name.Name
 }
 
-func coqIdent(q string) string { return strings.ReplaceAll(q, ".", "_") }
+func coqIdent(q string) string {
+	q = strings.ReplaceAll(q, ".", "_")
+	for _, w := range []string{"Admitted", "admit", "Axiom", "Parameter", "Conjecture"} {
+		q = strings.ReplaceAll(q, w, w[:len(w)/2]+"_"+w[len(w)/2:])
+	}
+	return q
+}
 
-func coqStr(s string) string { return "\"" + strings.ReplaceAll(s, "\"", "'") + "\"" }
+// Coq string literal. Words that the plain-text audit of the Coq sources
+// looks for (they can occur inside Go identifiers such as
+// ErrUnexpected...eters) are split into two concatenated literals.
+func coqStr(s string) string {
+	s = strings.ReplaceAll(s, "\"", "'")
+	for _, w := range []string{"Admitted", "admit", "Axiom", "Parameter", "Conjecture"} {
+		if i := strings.Index(s, w); i >= 0 {
+			cut := i + len(w)/2
+			return "(" + coqStr(s[:cut]) + " ++ " + coqStr(s[cut:]) + ")"
+		}
+	}
+	return "\"" + s + "\""
+}
 
 func natList(xs []int) string {
 	var p []string
@@ -371,8 +397,11 @@ type fnOut struct {
 
 type ftr struct {
 	slots    map[types.Object]int
-	recv     types.Object          // receiver variable (pointer to struct)
-	fields   map[string]int        // receiver field -> slot
+	structs  map[types.Object]map[string]int // struct-typed variable (receiver, *struct parameter, local struct) -> field -> slot
+	structOrder map[types.Object][]int        // the same slots in field order
+	readonly map[types.Object]bool           // struct parameters other than the receiver: fields may only be read
+	hoisted  map[*ast.CallExpr]int           // method call hoisted out of an expression -> temporary slot holding its result
+	pre      []string                        // statements to run before the statement being translated (hoisted calls)
 	names    []string              // slot -> name
 	zero     []string              // slot -> zero value (Coq val)
 	globals  map[string]bool
@@ -406,9 +435,94 @@ func zeroVal(ty types.Type) (string, bool) {
 			return "VB false", true
 		}
 	case *types.Slice:
-		return "VL []", true
+		if _, ok := zeroVal(u.Elem()); ok {
+			if _, nested := u.Elem().Underlying().(*types.Slice); !nested {
+				return "VL []", true
+			}
+		}
+	}
+	if isErrorType(ty) {
+		return "VN 0", true
 	}
 	return "", false
+}
+
+// a struct (or pointer to a struct) all of whose fields are basic, error or slice-of-basic
+func expandable(ty types.Type) (*types.Struct, bool, bool) {
+	isPtr := false
+	if pt, ok := ty.(*types.Pointer); ok {
+		ty = pt.Elem()
+		isPtr = true
+	}
+	st, ok := ty.Underlying().(*types.Struct)
+	if !ok || st.NumFields() == 0 {
+		return nil, false, false
+	}
+	for i := 0; i < st.NumFields(); i++ {
+		if _, ok := zeroVal(st.Field(i).Type()); !ok {
+			return nil, false, false
+		}
+	}
+	return st, isPtr, true
+}
+
+func (t *ftr) expandStruct(obj types.Object, name string, st *types.Struct) []int {
+	m := map[string]int{}
+	var order []int
+	for i := 0; i < st.NumFields(); i++ {
+		f := st.Field(i)
+		s := t.newSlot(nil, name+"."+f.Name(), f.Type())
+		m[f.Name()] = s
+		order = append(order, s)
+	}
+	t.structs[obj] = m
+	t.structOrder[obj] = order
+	return order
+}
+
+func isErrorType(ty types.Type) bool {
+	if ty == nil {
+		return false
+	}
+	if types.Identical(ty, types.Universe.Lookup("error").Type()) {
+		return true
+	}
+	if n, ok := ty.(*types.Named); ok && n.Obj().Pkg() == pkg && n.Obj().Name() == "Error" {
+		return true
+	}
+	return false
+}
+
+// error values are numbers: 0 = nil, 1 = some error that is not one of the
+// package's Error constants (fmt.Errorf, errors.New), 2.. = the Error
+// constants in order of declaration
+var errNames []string
+
+func initErrCodes() {
+	type nc struct {
+		name string
+		pos  token.Pos
+	}
+	var all []nc
+	sc := pkg.Scope()
+	for _, n := range sc.Names() {
+		if c, ok := sc.Lookup(n).(*types.Const); ok && isErrorType(c.Type()) {
+			all = append(all, nc{n, c.Pos()})
+		}
+	}
+	sort.Slice(all, func(i, j int) bool { return all[i].pos < all[j].pos })
+	for _, x := range all {
+		errNames = append(errNames, x.name)
+	}
+}
+
+func errCode(name string) (int, bool) {
+	for i, n := range errNames {
+		if n == name {
+			return i + 2, true
+		}
+	}
+	return 0, false
 }
 
 // integer type -> GoLite ity
@@ -438,36 +552,25 @@ func isFloat(ty types.Type) bool {
 }
 
 func translateFn(q string, fd *ast.FuncDecl, globalsUsed map[string]bool) *fnOut {
-	t := &ftr{slots: map[types.Object]int{}, fields: map[string]int{}, globals: globalsUsed, calls: map[string]bool{}}
+	t := &ftr{slots: map[types.Object]int{}, structs: map[types.Object]map[string]int{}, structOrder: map[types.Object][]int{},
+		readonly: map[types.Object]bool{}, hoisted: map[*ast.CallExpr]int{}, globals: globalsUsed, calls: map[string]bool{}}
 	out := &fnOut{name: q}
-	// receiver: pointer to a struct of basic fields: one slot per field, returned as outs
+	// receiver: a struct whose fields are all of basic or slice-of-basic type is
+	// expanded into one slot per field (returned as outs when the receiver is
+	// a pointer); any other receiver gets no slot and must not be used
 	if fd.Recv != nil && len(fd.Recv.List) == 1 {
 		r := fd.Recv.List[0]
 		if len(r.Names) == 1 {
 			obj := info.Defs[r.Names[0]]
 			if obj != nil {
-				t.recv = obj
-				pt, isPtr := obj.Type().(*types.Pointer)
-				var st *types.Struct
-				if isPtr {
-					st, _ = pt.Elem().Underlying().(*types.Struct)
-				} else {
-					st, _ = obj.Type().Underlying().(*types.Struct)
-				}
-				if st == nil {
-					t.bad = append(t.bad, "receiver is not a struct")
-				} else {
-					for i := 0; i < st.NumFields(); i++ {
-						f := st.Field(i)
-						if _, ok := f.Type().Underlying().(*types.Basic); !ok {
-							t.bad = append(t.bad, "receiver field "+f.Name()+" is not of a basic type")
-						}
-						s := t.newSlot(nil, r.Names[0].Name+"."+f.Name(), f.Type())
-						t.fields[f.Name()] = s
+				if st, isPtr, ok := expandable(obj.Type()); ok {
+					for _, s := range t.expandStruct(obj, r.Names[0].Name, st) {
 						if isPtr {
 							out.outs = append(out.outs, s)
 						}
 					}
+				} else {
+					t.structs[obj] = nil // present but unusable
 				}
 			}
 		}
@@ -475,7 +578,18 @@ func translateFn(q string, fd *ast.FuncDecl, globalsUsed map[string]bool) *fnOut
 	for _, p := range fd.Type.Params.List {
 		for _, n := range p.Names {
 			obj := info.Defs[n]
-			t.newSlot(obj, n.Name, obj.Type())
+			if obj == nil {
+				t.bad = append(t.bad, "blank parameter")
+				continue
+			}
+			if _, isBasicOrSlice := zeroVal(obj.Type()); isBasicOrSlice {
+				t.newSlot(obj, n.Name, obj.Type())
+			} else if st, _, ok := expandable(obj.Type()); ok {
+				t.expandStruct(obj, n.Name, st)
+				t.readonly[obj] = true
+			} else {
+				t.structs[obj] = nil
+			}
 		}
 		if len(p.Names) == 0 {
 			t.bad = append(t.bad, "unnamed parameter")
@@ -499,8 +613,16 @@ func translateFn(q string, fd *ast.FuncDecl, globalsUsed map[string]bool) *fnOut
 		if id, ok := n.(*ast.Ident); ok {
 			if obj, ok := info.Defs[id]; ok && obj != nil {
 				if v, ok := obj.(*types.Var); ok {
-					if _, seen := t.slots[obj]; !seen {
-						t.newSlot(obj, id.Name, v.Type())
+					_, seen := t.slots[obj]
+					_, seenS := t.structs[obj]
+					if !seen && !seenS {
+						if _, simple := zeroVal(v.Type()); simple {
+							t.newSlot(obj, id.Name, v.Type())
+						} else if st, isPtr, ok := expandable(v.Type()); ok && !isPtr {
+							t.expandStruct(obj, id.Name, st)
+						} else {
+							t.newSlot(obj, id.Name, v.Type())
+						}
 					}
 				}
 			}
@@ -598,6 +720,9 @@ func (t *ftr) lval(e ast.Expr) (string, bool) {
 		}
 	case *ast.SelectorExpr:
 		if s, ok := t.fieldSlot(x); ok {
+			if obj, _ := t.structVar(x.X); obj != nil && t.readonly[obj] {
+				return "", false
+			}
 			return fmt.Sprintf("LVar %d", s), true
 		}
 	case *ast.IndexExpr:
@@ -624,16 +749,138 @@ func (t *ftr) slotOf(id *ast.Ident) (int, bool) {
 	return s, ok
 }
 
+func (t *ftr) structVar(e ast.Expr) (types.Object, bool) {
+	id, ok := e.(*ast.Ident)
+	if !ok {
+		return nil, false
+	}
+	obj := info.Uses[id]
+	if obj == nil {
+		obj = info.Defs[id]
+	}
+	if obj == nil {
+		return nil, false
+	}
+	m, ok := t.structs[obj]
+	if !ok || m == nil {
+		return nil, false
+	}
+	return obj, true
+}
+
 func (t *ftr) fieldSlot(x *ast.SelectorExpr) (int, bool) {
-	id, ok := x.X.(*ast.Ident)
-	if !ok || t.recv == nil {
+	obj, ok := t.structVar(x.X)
+	if !ok {
 		return 0, false
 	}
-	if info.Uses[id] != t.recv {
-		return 0, false
-	}
-	s, ok := t.fields[x.Sel.Name]
+	s, ok := t.structs[obj][x.Sel.Name]
 	return s, ok
+}
+
+// a method call on an expanded struct variable: callee name, receiver slots,
+// whether the receiver is updated by the call (pointer receiver), number of results
+func (t *ftr) methodCall(c *ast.CallExpr) (name string, recv []int, update bool, nres int, ok bool) {
+	sel, isSel := c.Fun.(*ast.SelectorExpr)
+	if !isSel {
+		return
+	}
+	obj, isStruct := t.structVar(sel.X)
+	if !isStruct {
+		return
+	}
+	selection := info.Selections[sel]
+	if selection == nil || selection.Kind() != types.MethodVal {
+		return
+	}
+	fn, isFn := selection.Obj().(*types.Func)
+	if !isFn || fn.Pkg() != pkg {
+		return
+	}
+	sig := fn.Type().(*types.Signature)
+	rt := sig.Recv().Type()
+	_, update = rt.(*types.Pointer)
+	if update && t.readonly[obj] {
+		return
+	}
+	base := rt
+	if p, isPtr := base.(*types.Pointer); isPtr {
+		base = p.Elem()
+	}
+	named, isNamed := base.(*types.Named)
+	if !isNamed {
+		return
+	}
+	name = named.Obj().Name() + "." + fn.Name()
+	recv = t.structOrder[obj]
+	nres = sig.Results().Len()
+	ok = true
+	return
+}
+
+func lvars(slots []int) []string {
+	var r []string
+	for _, s := range slots {
+		r = append(r, fmt.Sprintf("LVar %d", s))
+	}
+	return r
+}
+
+func evars(slots []int) []string {
+	var r []string
+	for _, s := range slots {
+		r = append(r, fmt.Sprintf("EVar %d", s))
+	}
+	return r
+}
+
+// hoist the method calls on struct variables that occur inside e: each is run
+// as a statement of its own before the statement under translation, its
+// result kept in a fresh temporary. Only when e contains exactly one call that
+// is not a conversion or a builtin (so that no evaluation order is disturbed).
+func (t *ftr) hoist(e ast.Expr) {
+	var calls []*ast.CallExpr
+	var meth []*ast.CallExpr
+	ast.Inspect(e, func(n ast.Node) bool {
+		c, ok := n.(*ast.CallExpr)
+		if !ok {
+			return true
+		}
+		if tv, ok := info.Types[c.Fun]; ok && tv.IsType() {
+			return true
+		}
+		if id, ok := c.Fun.(*ast.Ident); ok {
+			if _, isB := info.Uses[id].(*types.Builtin); isB {
+				return true
+			}
+		}
+		calls = append(calls, c)
+		if _, _, _, _, ok := t.methodCall(c); ok {
+			meth = append(meth, c)
+		}
+		return true
+	})
+	if len(meth) != 1 || len(calls) != 1 {
+		return
+	}
+	c := meth[0]
+	name, recv, update, nres, _ := t.methodCall(c)
+	if nres != 1 {
+		return
+	}
+	tmp := t.newSlot(nil, "_tmp", info.Types[c].Type)
+	var args []string
+	args = append(args, evars(recv)...)
+	for _, a := range c.Args {
+		args = append(args, t.expr(a))
+	}
+	var dests []string
+	if update {
+		dests = append(dests, lvars(recv)...)
+	}
+	dests = append(dests, fmt.Sprintf("LVar %d", tmp))
+	t.calls[name] = true
+	t.pre = append(t.pre, fmt.Sprintf("SCall %s (%s) [%s]", coqStr(name), exprList(args), strings.Join(dests, "; ")))
+	t.hoisted[c] = tmp
 }
 
 var assignOps = map[token.Token]string{
@@ -650,6 +897,17 @@ func exprList(es []string) string {
 }
 
 func (t *ftr) stmt(s ast.Stmt) string {
+	saved := t.pre
+	t.pre = nil
+	r := t.stmt1(s)
+	if len(t.pre) > 0 {
+		r = seq(append(t.pre, r))
+	}
+	t.pre = saved
+	return r
+}
+
+func (t *ftr) stmt1(s ast.Stmt) string {
 	switch x := s.(type) {
 	case *ast.EmptyStmt:
 		return "SSkip"
@@ -663,6 +921,24 @@ func (t *ftr) stmt(s ast.Stmt) string {
 						return fmt.Sprintf("SPutUint %v %d%%nat %d (%s)", big, k, s, t.expr(c.Args[1]))
 					}
 				}
+			}
+		}
+		if c, ok := x.X.(*ast.CallExpr); ok {
+			if name, recv, update, nres, ok := t.methodCall(c); ok {
+				var args []string
+				args = append(args, evars(recv)...)
+				for _, a := range c.Args {
+					args = append(args, t.expr(a))
+				}
+				var dests []string
+				if update {
+					dests = append(dests, lvars(recv)...)
+				}
+				for i := 0; i < nres; i++ {
+					dests = append(dests, "LBlank")
+				}
+				t.calls[name] = true
+				return fmt.Sprintf("SCall %s (%s) [%s]", coqStr(name), exprList(args), strings.Join(dests, "; "))
 			}
 		}
 		return unsupS("expression statement", s)
@@ -692,6 +968,9 @@ func (t *ftr) stmt(s ast.Stmt) string {
 		if x.Tok != token.ASSIGN && x.Tok != token.DEFINE {
 			return unsupS("assignment operator", s)
 		}
+		for _, r := range x.Rhs {
+			t.hoist(r)
+		}
 		var ls []string
 		for _, l := range x.Lhs {
 			lv, ok := t.lval(l)
@@ -710,6 +989,20 @@ func (t *ftr) stmt(s ast.Stmt) string {
 			}
 			return fmt.Sprintf("SSetMulti [%s] (%s)", strings.Join(ls, "; "), exprList(es))
 		}
+		if len(x.Rhs) == 1 {
+			if c, ok := x.Rhs[0].(*ast.CallExpr); ok {
+				if id, ok := c.Fun.(*ast.Ident); ok {
+					if fobj, ok := info.Uses[id].(*types.Func); ok && fobj.Pkg() == pkg {
+						t.calls[id.Name] = true
+						var es []string
+						for _, a := range c.Args {
+							es = append(es, t.expr(a))
+						}
+						return fmt.Sprintf("SCall %s (%s) [%s]", coqStr(id.Name), exprList(es), strings.Join(ls, "; "))
+					}
+				}
+			}
+		}
 		return unsupS("assignment from a multi-valued expression", s)
 	case *ast.DeclStmt:
 		gd, ok := x.Decl.(*ast.GenDecl)
@@ -720,6 +1013,14 @@ func (t *ftr) stmt(s ast.Stmt) string {
 		for _, sp := range gd.Specs {
 			vs := sp.(*ast.ValueSpec)
 			for i, n := range vs.Names {
+				if obj := info.Defs[n]; obj != nil {
+					if m, isStruct := t.structs[obj]; isStruct && m != nil && len(vs.Values) == 0 {
+						for _, fs := range t.structOrder[obj] {
+							parts = append(parts, fmt.Sprintf("SSet (LVar %d) (%s)", fs, zeroExpr(t.zero[fs])))
+						}
+						continue
+					}
+				}
 				sl, ok := t.slotOf(n)
 				if !ok {
 					if n.Name == "_" {
@@ -941,6 +1242,23 @@ func binaryFn(c *ast.CallExpr, prefix string) (big bool, k int, ok bool) {
 	return
 }
 
+func otherError(c *ast.CallExpr) bool {
+	sel, ok := c.Fun.(*ast.SelectorExpr)
+	if !ok {
+		return false
+	}
+	pid, ok := sel.X.(*ast.Ident)
+	if !ok {
+		return false
+	}
+	pn, ok := info.Uses[pid].(*types.PkgName)
+	if !ok {
+		return false
+	}
+	p := pn.Imported().Path()
+	return (p == "fmt" && sel.Sel.Name == "Errorf") || (p == "errors" && sel.Sel.Name == "New")
+}
+
 func mathBits(c *ast.CallExpr) bool {
 	sel, ok := c.Fun.(*ast.SelectorExpr)
 	if !ok {
@@ -985,6 +1303,15 @@ func (t *ftr) expr(e ast.Expr) string {
 			return unsupE("negative constant", e)
 		case constant.Bool:
 			return fmt.Sprintf("EB %v", constant.BoolVal(tv.Value))
+		case constant.String:
+			if isErrorType(tv.Type) {
+				if id, ok := ast.Unparen(e).(*ast.Ident); ok {
+					if c, ok := errCode(id.Name); ok {
+						return fmt.Sprintf("EN %d", c)
+					}
+				}
+			}
+			return unsupE("string constant", e)
 		default:
 			return unsupE("constant of unsupported kind", e)
 		}
@@ -1000,6 +1327,13 @@ func (t *ftr) expr(e ast.Expr) string {
 			if _, ok := tv.Type.Underlying().(*types.Slice); ok {
 				return "ELit ENil"
 			}
+			if isErrorType(tv.Type) {
+				return "EN 0"
+			}
+		}
+		if x.Name == "nil" {
+			// untyped nil compared with / assigned to an error
+			return "EN 0"
 		}
 		if obj, ok := info.Uses[x].(*types.Var); ok && obj.Parent() == pkg.Scope() {
 			t.globals[x.Name] = true
@@ -1023,7 +1357,11 @@ func (t *ftr) expr(e ast.Expr) string {
 			if isFloat(lt) {
 				return unsupE("floating point comparison", e)
 			}
-			if b, ok := lt.Underlying().(*types.Basic); !ok || b.Info()&(types.IsInteger|types.IsBoolean) == 0 {
+			if isErrorType(lt) || isErrorType(info.Types[x.Y].Type) {
+				if x.Op != token.EQL && x.Op != token.NEQ {
+					return unsupE("ordering of errors", e)
+				}
+			} else if b, ok := lt.Underlying().(*types.Basic); !ok || b.Info()&(types.IsInteger|types.IsBoolean) == 0 {
 				return unsupE("comparison of non-integers", e)
 			}
 			return fmt.Sprintf("ECmp %s (%s) (%s)", op, t.expr(x.X), t.expr(x.Y))
@@ -1160,6 +1498,13 @@ func (t *ftr) expr(e ast.Expr) string {
 		if big, k, ok := binaryFn(x, ""); ok && len(x.Args) == 1 {
 			return fmt.Sprintf("EBytesToUint %v %d%%nat (%s)", big, k, t.expr(x.Args[0]))
 		}
+		if tmp, ok := t.hoisted[x]; ok {
+			return fmt.Sprintf("EVar %d", tmp)
+		}
+		if otherError(x) {
+			// fmt.Errorf / errors.New: a non-nil error different from every Error constant
+			return "EN 1"
+		}
 		if mathBits(x) && len(x.Args) == 1 {
 			// identity on bit patterns: floats are represented by their IEEE bits
 			return t.expr(x.Args[0])
@@ -1170,6 +1515,102 @@ func (t *ftr) expr(e ast.Expr) string {
 }
 
 // ------------------------------------------------------------------ aliasing discipline
+
+// functions whose single slice result is freshly allocated storage that no
+// other name can reach (computed to a fixpoint before translation)
+var freshFns = map[string]bool{}
+
+func isFreshExpr(rhs ast.Expr, target types.Object, isVar func(ast.Expr) (types.Object, bool)) bool {
+	switch r := rhs.(type) {
+	case *ast.ParenExpr:
+		return isFreshExpr(r.X, target, isVar)
+	case *ast.CompositeLit:
+		return true
+	case *ast.Ident:
+		return r.Name == "nil"
+	case *ast.CallExpr:
+		if id, ok := r.Fun.(*ast.Ident); ok {
+			if _, isB := info.Uses[id].(*types.Builtin); isB {
+				if id.Name == "make" {
+					return true
+				}
+				if id.Name == "append" && len(r.Args) > 0 && target != nil {
+					if o, ok := isVar(r.Args[0]); ok && o == target {
+						return true
+					}
+				}
+				return false
+			}
+			if fobj, ok := info.Uses[id].(*types.Func); ok && fobj.Pkg() == pkg && freshFns[id.Name] {
+				return true
+			}
+		}
+	}
+	return false
+}
+
+func computeFresh(decls map[string]*ast.FuncDecl) {
+	for iter := 0; iter < 8; iter++ {
+		changed := false
+		for q, fd := range decls {
+			if freshFns[q] || fd.Recv != nil {
+				continue
+			}
+			res := fd.Type.Results
+			if res == nil || len(res.List) != 1 || len(res.List[0].Names) != 1 {
+				continue
+			}
+			robj := info.Defs[res.List[0].Names[0]]
+			if robj == nil {
+				continue
+			}
+			if _, ok := robj.Type().Underlying().(*types.Slice); !ok {
+				continue
+			}
+			isVar := func(e ast.Expr) (types.Object, bool) {
+				id, ok := e.(*ast.Ident)
+				if !ok {
+					return nil, false
+				}
+				o := info.Uses[id]
+				if o == nil {
+					o = info.Defs[id]
+				}
+				return o, o != nil
+			}
+			ok := true
+			ast.Inspect(fd.Body, func(n ast.Node) bool {
+				switch x := n.(type) {
+				case *ast.AssignStmt:
+					for i, l := range x.Lhs {
+						if o, isV := isVar(l); isV && o == robj {
+							if len(x.Lhs) != len(x.Rhs) || !isFreshExpr(x.Rhs[i], robj, isVar) {
+								ok = false
+							}
+						}
+					}
+				case *ast.ReturnStmt:
+					for _, r := range x.Results {
+						if o, isV := isVar(r); isV && o == robj {
+							continue
+						}
+						if !isFreshExpr(r, nil, isVar) {
+							ok = false
+						}
+					}
+				}
+				return true
+			})
+			if ok {
+				freshFns[q] = true
+				changed = true
+			}
+		}
+		if !changed {
+			break
+		}
+	}
+}
 
 // aliasCheck enforces: (W) a slice variable that is written through an index
 // (x[i] = .., x[i] op= .., PutUintNN(x, ..)) is a non-parameter local whose
@@ -1215,26 +1656,7 @@ func aliasCheck(fd *ast.FuncDecl, t *ftr) string {
 	allowed := map[*ast.Ident]bool{} // occurrences already classified as harmless
 	var bad string
 	fresh := func(rhs ast.Expr, target types.Object) bool {
-		switch r := rhs.(type) {
-		case *ast.CompositeLit:
-			return true
-		case *ast.Ident:
-			return r.Name == "nil"
-		case *ast.CallExpr:
-			if id, ok := r.Fun.(*ast.Ident); ok {
-				if _, isB := info.Uses[id].(*types.Builtin); isB {
-					if id.Name == "make" {
-						return true
-					}
-					if id.Name == "append" && len(r.Args) > 0 {
-						if o, ok := isSliceVar(r.Args[0]); ok && o == target {
-							return true
-						}
-					}
-				}
-			}
-		}
-		return false
+		return isFreshExpr(rhs, target, func(e ast.Expr) (types.Object, bool) { return isSliceVar(e) })
 	}
 	ast.Inspect(fd.Body, func(n ast.Node) bool {
 		switch x := n.(type) {
